@@ -75,6 +75,9 @@ class IterInterp(Interp):
                     return [(x[1][2], heap, conds)]
                 if name == "map":
                     return [(("optelem", ("iter", x[1][1], self.apply(args[1], x[1][2], heap, conds, depth))), heap, conds)]
+                if name in ("map_or", "map_or_else") and len(args) == 3:
+                    # value for a non-empty collection (the default only covers the empty one)
+                    return [(self.apply(args[2], x[1][2], heap, conds, depth), heap, conds)]
         if fn in ("std::collections::HashMap::<K, V, S, A>::get", "std::collections::HashMap::<K, V, S, A>::get_mut", "std::collections::HashMap::<K, V, S, A>::contains_key"):
             self.events.append((fn, tuple(args), tuple(conds)))
             return [(("mapval", args[0], args[1]), heap, conds)]
